@@ -24,8 +24,10 @@ def split_const(p):
     return (str(q), q, sign, c)
 
 
-def simplify(atoms):
-    """Drop implied linear atoms; canonical order. atoms: list of atom tuples (rel atoms carry Poly)."""
+def simplify(atoms, box=None):
+    """Drop implied linear atoms; canonical order. atoms: list of atom tuples (rel atoms carry Poly).
+    With `box` (symbol -> (lo, hi)) bounds that hold by the type/width of the symbols are dropped as tautologies and
+    paths contradicting them are infeasible (`match x { 0..=127 => .. }` on a u8 compiles to `0 <= x && x <= 127`)."""
     groups = {}
     rest = []
     false = False
@@ -75,6 +77,21 @@ def simplify(atoms):
             out.append(rel_atom(q - Poly.const(e), "=="))
             continue
         lo, hi = g["lo"], g["hi"]
+        if box is not None:
+            from .prover import poly_interval
+            qlo, qhi = poly_interval(q, {s_: box.get(s_, (None, None)) for s_ in q.syms()})
+            if lo is not None and qhi is not None and lo > qhi:
+                false = True
+            if hi is not None and qlo is not None and hi < qlo:
+                false = True
+            if lo is not None and qlo is not None and lo <= qlo:
+                lo = None
+            if hi is not None and qhi is not None and hi >= qhi:
+                hi = None
+            if lo is None and qlo is not None:
+                g["ne"] = set(d for d in g["ne"] if d >= qlo)
+            if hi is None and qhi is not None:
+                g["ne"] = set(d for d in g["ne"] if d <= qhi)
         if lo is not None and hi is not None and lo > hi:
             false = True
         if lo is not None and hi is not None and lo == hi:
@@ -172,7 +189,7 @@ def accept_tables(prog, fn_path, sites="ok", alias=None, limit=20000):
             raise RuntimeError("too many accept paths in %s" % fn_path)
         sets = []
         for path in ps:
-            ats = simplify(path_atoms(sy, path))
+            ats = simplify(path_atoms(sy, path), sy.sym_box)
             if ats is None:
                 continue   # infeasible path
             strs = frozenset(apply_alias(atom_str(a), alias) for a in ats)
@@ -186,7 +203,7 @@ def loop_tables(prog, an, sy, header, alias=None):
     ps = loop_iteration_paths(an, header)
     sets = []
     for path in ps or []:
-        ats = simplify(path_atoms(sy, path))
+        ats = simplify(path_atoms(sy, path), sy.sym_box)
         if ats is None:
             continue
         sets.append(frozenset(apply_alias(atom_str(a), alias) for a in ats))
@@ -266,7 +283,7 @@ def ret_table(prog, fn, alias=None, slice_param=None, only_ok=False):
         if ps is None:
             raise RuntimeError("too many paths in %s" % fn)
         for path in ps:
-            ats = simplify(path_atoms(sy, path))
+            ats = simplify(path_atoms(sy, path), sy.sym_box)
             if ats is None:
                 continue
             sy.set_path(path[1])
